@@ -12,18 +12,13 @@ from ural.infer_redirection import infer_redirection as resolve
 from ural.ensure_protocol import ensure_protocol
 from ural.tld import split_suffix
 from ural.patterns import CONTROL_CHARS_RE
-from ural.quote import unquote
+from ural.quote import unquote_letters
 
 LANG_QUERY_KEYS = ("gl", "hl")
 
 # NOTE: only ascii letters make a code, but str.upper() finds one in other
 # letters too ("\u0131t".upper(), with a dotless i, is "IT")
 LANG_SUBDOMAINS = frozenset(code.lower() for code in ISO_3166_1_COUNTRIES_ALPHA_2)
-
-# NOTE: every byte but the ascii letters
-EVERYTHING_BUT_LETTERS = bytes(
-    bytearray(i for i in range(256) if not (65 <= i <= 90 or 97 <= i <= 122))
-)
 
 # TODO: drop tld
 
@@ -71,7 +66,7 @@ def lowercase_url(url):
     # an escape ("%4\x019" is "I" too)
     url = CONTROL_CHARS_RE.sub("", url)
 
-    return unquote(url.lower(), unsafe=EVERYTHING_BUT_LETTERS).lower()
+    return unquote_letters(url.lower()).lower()
 
 
 def fingerprint_hostname(hostname, strip_suffix=False):
